@@ -212,3 +212,51 @@ Check SrcTie2Events.EV_linear_extract_shape.
 Theorem C12_tie_EV_linear_extract_shape : ltac:(let t := type of SrcTie2Events.EV_linear_extract_shape in exact t).
 Proof. exact SrcTie2Events.EV_linear_extract_shape. Qed.
 Print Assumptions C12_tie_EV_linear_extract_shape.
+
+(* ---------- work package `extract`: the sink of `mlar extract` (FileWriters sharing an LRU pool of open files) ----------
+   `mlar extract` without file arguments hands linear_extract one FileWriter per member; they share a pool of at most
+   FILE_WRITER_POOL_SIZE = 1000 open files and re-open an evicted file in APPEND mode (theories/Pool.v).  For ANY
+   capacity and ANY sequence of write calls (any interleaving of any number of members) the files end up as if every
+   write had re-opened its file in append mode, so each file holds the concatenation, in order, of the pieces
+   linear_extract delivered to it (C12_linear_delivers_written says which pieces those are; the composition from archive
+   bytes to files is C16_extract_archive_benign in props/C16.v). *)
+From MLA Require Import Path Pool PoolProofs PoolTie.
+Import Coq.Strings.String.StringSyntax.
+
+Theorem C12_pool_transparent :
+  forall cap ws f pl, pool_ok f pl ->
+    exists pl', pool_run RAppend cap ws f pl = (fst (direct_run ws f), pl', snd (direct_run ws f)) /\
+                pool_ok (fst (direct_run ws f)) pl'.
+Proof. exact pool_transparent. Qed.
+
+Theorem C12_pool_delivers_concatenation :
+  forall cap ws f f' pl', pool_run RAppend cap ws f [] = (f', pl', true) ->
+    (forall q d, lookup f q = Some (File d) -> lookup f' q = Some (File (d ++ written_to f q ws))) /\
+    (forall p, (forall d, lookup f p <> Some (File d)) -> lookup f' p = lookup f p).
+Proof. exact pool_run_content. Qed.
+
+(* re-opening in plain write mode (seeded change C12-m2) is false of the model as soon as one handle is evicted *)
+Theorem C12_pool_reopen_write_refuted :
+  exists cap out names blocks f f',
+    cap = 1%nat /\
+    extract_linear_pool RWrite cap whole_cut out names blocks f = (f', true) /\
+    read_file f' (out ++ [s2b "a"]) = Some (s2b "31") /\
+    read_file (fst (extract_linear out names blocks f)) (out ++ [s2b "a"]) = Some (s2b "113").
+Proof. exact pool_reopen_write_refuted. Qed.
+
+(* Tie A: the re-open mode of the source is the append mode of the model, the capacity is the model's *)
+Theorem C12_pool_reopen_mode_is_append :
+  reopen_of_flags Src.POOL_reopen_flags = Some RAppend /\ N.of_nat POOL_CAP = Src.FILE_WRITER_POOL_SIZE.
+Proof. exact (conj pool_reopen_mode_src (proj1 pool_source_facts)). Qed.
+
+Print Assumptions C12_pool_transparent.
+Print Assumptions C12_pool_delivers_concatenation.
+Print Assumptions C12_pool_reopen_write_refuted.
+Print Assumptions C12_pool_reopen_mode_is_append.
+
+(* non-vacuity: a pool of one handle, two members interleaved: the run succeeds and "a" holds its pieces in order *)
+Example C12_pool_nonvacuous :
+  let r := extract_linear_pool RAppend 1 copy_cut pool_out pool_names pool_blocks pool_fs0 in
+  snd r = true /\ read_file (fst r) (pool_out ++ [s2b "a"]) = Some (s2b "113") /\
+  read_file (fst r) (pool_out ++ [s2b "b"]) = Some (s2b "2").
+Proof. vm_compute. repeat split. Qed.
